@@ -41,3 +41,8 @@ package endpoint
 //@   ensures [C18] result.Grid == end.Grid && result.Qos == end.Qos && result.Weight == end.Weight && result.WeightType == end.WeightType
 //@   ensures [C18] result.AuthType == end.AuthType && result.SetId == end.SetId
 //@   safety [C18]
+//
+//@ func (Endpoint).HashKey
+//@   pure
+//@   ensures [C13,C14] result == e.Host
+//@   safety [C13]
